@@ -14,6 +14,9 @@ use jbonsai::model::Models;
 use jbonsai::Engine;
 use jlabel::Label;
 
+/// window sets (ids of `voicegen::WINDOW_SETS`) with a 5-tap window used by `wide-windows`
+const WIDE_SETS: [usize; 1] = [5];
+
 fn traj_of(run: &crate::synth::Run, stream: usize) -> &Vec<Vec<f64>> {
     match stream {
         0 => &run.spectrum,
@@ -332,6 +335,66 @@ pub fn run(ctx: &mut Ctx) {
             ctx.count("coefficient_variances_checked", 1.0);
         }
         ctx.nontrivial(mix(&[17, stream as u64, hash_str(&format!("{:?}{:?}{}{}", wg, wp, factor, gw)), hash_str(&text0)]));
+    });
+    // the bundled voice's statistics with the classic wider dynamic windows (5-tap delta):
+    // the band of W'U^-1W is then wider than the number of windows. Replaced on the public
+    // `ModelStream` (the object `Engine::generator` hands to `MlpgAdjust`), same 20 % law.
+    let n = ctx.n(16, 600);
+    ctx.run_cases("wide-windows", n, false, |ctx, rng, idx| {
+        use jbonsai::model::voice::window::{Window, Windows};
+        let set = WIDE_SETS[idx % WIDE_SETS.len()];
+        let wins = voicegen::window_set(set);
+        let windows = Windows::new(wins.iter().map(|w| Window::new(w.clone())).collect());
+        let nl = rng.range(25, 50);
+        let labels = env.corpus.utterance(rng, nl, 0);
+        let text0 = labels[0].to_string();
+        let Ok(base_run) = trajectories(&bundled, labels.clone()) else {
+            ctx.violation("synthesize-err", J::from("wide-windows"));
+            return;
+        };
+        let models = Models::new(&labels, &bundled.voices, bundled.condition.get_interporation_weight());
+        for stream in 0..2usize {
+            let Ok(Some(gv)) = ref_gv(&env.bundled_ref, stream, &text0) else { continue };
+            let vlen = env.bundled_ref.streams[stream].vector_length;
+            let mut prev: Option<Vec<f64>> = None;
+            for w in [0.25, 0.5, 1.0, 2.0] {
+                let mut ms = models.model_stream(stream);
+                ms.windows = &windows;
+                let tr = MlpgAdjust::new(w, bundled.condition.get_msd_threshold(stream), ms).create(&base_run.durations);
+                let voiced: Vec<bool> = if stream == 1 { tr.iter().map(|f| f[0] != NODATA).collect() } else { vec![true; tr.len()] };
+                let el = eligibility(&env.bundled_ref, &labels, &base_run.durations, env.bundled_ref.num_states, &voiced);
+                let cnt = el.iter().filter(|b| **b).count();
+                if cnt < 100 {
+                    ctx.count("utterance_streams_below_100_eligible", 1.0);
+                    break;
+                }
+                let mut vars = Vec::new();
+                for k in 0..vlen {
+                    let vals: Vec<f64> = tr.iter().zip(&el).filter(|(_, e)| **e).map(|(f, _)| f[k]).collect();
+                    let v = variance(&vals);
+                    let ratio = v / (w * gv.mean[k]);
+                    ctx.max(&format!("wide_set{}_stream{}_worst_above_1", set, stream), ratio - 1.0);
+                    ctx.max(&format!("wide_set{}_stream{}_worst_below_1", set, stream), 1.0 - ratio);
+                    if !(0.8..=1.2).contains(&ratio) {
+                        ctx.violation(
+                            "variance-not-restored-with-wide-windows",
+                            J::obj().set("window_set", set).set("stream", stream).set("coefficient", k).set("gv_weight", w).set("ratio", ratio).set("eligible_frames", cnt).set("first_label", text0.clone()).set("nlabels", labels.len()),
+                        );
+                        return;
+                    }
+                    vars.push(v);
+                    ctx.count("coefficient_variances_checked", 1.0);
+                }
+                if let Some(pv) = &prev {
+                    if let Some(k) = (0..vlen).find(|k| !(vars[*k] > pv[*k])) {
+                        ctx.violation("variance-not-increasing-with-weight", J::obj().set("window_set", set).set("stream", stream).set("coefficient", k).set("gv_weight", w));
+                        return;
+                    }
+                }
+                prev = Some(vars);
+            }
+        }
+        ctx.nontrivial(mix(&[19, set as u64, hash_str(&to_strings(&labels).join("|"))]));
     });
     let n = ctx.n(24, 1000);
     ctx.run_cases("silence-only", n, false, |ctx, rng, _| {
